@@ -51,6 +51,8 @@ def build_regressor(name):
         return Squeeze1(KNeighborsRegressor(n_neighbors=2))
     if name == "rawlin":
         return LinearRegression()
+    if name == "rawridge":
+        return Ridge(alpha=0.5)
     raise ValueError(name)
 
 
@@ -211,6 +213,17 @@ def requires_fh_in_fit(spec):
     return any(requires_fh_in_fit(c) for c in children(spec))
 
 
+def horizon_separable(spec):
+    """the forecast for step h does not depend on which other steps are requested (false for stacking: the meta-learner is
+    trained on the horizon's hold-out; for multioutput / dirrec reductions: one joint or chained model over the horizon)"""
+    kind = spec[0]
+    if kind == "stack":
+        return False
+    if kind == "reduce":
+        return spec[1].get("strategy", "recursive") in ("recursive", "direct")
+    return all(horizon_separable(c) for c in children(spec))
+
+
 def needs_positive(spec):
     kind = spec[0]
     if kind == "pipeline":
@@ -351,7 +364,9 @@ def random_spec(rng, depth=2, allow_slow=False, allow_fh_required=True, positive
     if kind == "multiplex":
         m = [sub() for _ in range(int(rng.integers(2, 4)))]
         return ["multiplex", {"selected": int(rng.integers(0, len(m)))}, m]
-    return ["stack", {"reg": "lin"}, [leaves[int(rng.integers(0, len(leaves)))] for _ in range(2)]]
+    # ridge meta-learner: the hold-out has len(fh) rows for 2 features + intercept, so an unregularised least-squares fit is
+    # ill-conditioned whenever the member forecasts are nearly collinear (coefficients ~1e13, overflow after exp / inverse Box-Cox)
+    return ["stack", {"reg": "ridge"}, [leaves[int(rng.integers(0, len(leaves)))] for _ in range(2)]]
 
 
 def make_series(rng, n, positive=True, off=0, kind="seasonal", index="range"):
